@@ -757,7 +757,21 @@ func checkReturnAlias(c *Ctx, p *Program) {
 			if !ok {
 				continue
 			}
+			var cands []ssa.Value
 			for _, rv := range ret.Results {
+				cands = append(cands, rv)
+				// a pointer to a local slice variable (`return &out`): what was stored in the variable
+				if al, ok := rv.(*ssa.Alloc); ok {
+					if _, isSl := derefType(al.Type()).Underlying().(*types.Slice); isSl {
+						for _, r := range *al.Referrers() {
+							if st, ok := r.(*ssa.Store); ok && st.Addr == ssa.Value(al) {
+								cands = append(cands, st.Val)
+							}
+						}
+					}
+				}
+			}
+			for _, rv := range cands {
 				v := rv
 				if mi, ok := v.(*ssa.MakeInterface); ok {
 					v = mi.X // a slice-typed key handed out as crypto.PublicKey
